@@ -1,7 +1,14 @@
 package main
 
 import (
+	"database/sql"
+	"encoding"
+	"encoding/gob"
+	"encoding/json"
+	"encoding/xml"
 	"errors"
+	"reflect"
+	"strconv"
 	"sync"
 	"sync/atomic"
 
@@ -24,6 +31,11 @@ import (
 
 func init() {
 	props["C17"] = runC17
+	replayers["C17/discovered"] = func(v rt.Violation) string {
+		c := rt.ReplayCtx("C17")
+		c.Serial("replay", c17DiscoveredAll)
+		return c.Report()
+	}
 	replayers["C17/confparser"] = func(v rt.Violation) string {
 		c := rt.ReplayCtx("C17")
 		c17Configured(c)
@@ -634,6 +646,10 @@ func runC17(c *rt.Ctx) {
 	refillRun(c, c.Pick(30000, 300000), "date", "date-json", "roman", "sem", "size", "size-text", "uu")
 	c17Configured(c)
 	c.Require("configured-parser-call", 24)
+	c.Serial("discovered-methods", c17DiscoveredAll)
+	for _, t := range []string{"date", "roman", "sem", "size", "uu"} {
+		c.Require("discovered-method-call:"+t, 10)
+	}
 	// inputs bordering inaccessible pages: nothing but the bytes handed over may be touched
 	guardedInputs(c, "C17", "date", []string{"2021-03-04", "20210304", "2021-02-30", "\x01\x00\x00\x07\xe5\x03\x04", "\x01\x00\x00\x07\xe5\x03", "x"})
 	guardedInputs(c, "C17", "roman", []string{"MCMXCIV", "mmxxiv", "IIII", "VX", "i"})
@@ -642,6 +658,76 @@ func runC17(c *rt.Ctx) {
 	guardedInputs(c, "C17", "uu", []string{"f81d4fae-7dec-11d0-a765-00a0c91e6bf6", "urn:uuid:f81d4fae-7dec-11d0-a765-00a0c91e6bf6", "f81d4fae-7dec-11d0-a765-00a0c91e6bf", "u"})
 	c.Require("instantiation-agreement-on-accepted", 10000)
 	c.Require("instantiation-agreement-on-rejected", 10000)
+}
+
+func c17DiscoveredAll(w *rt.W) {
+	c17Discovered(w, "date", date.New(1999, 9, 9), []string{"2021-02-30", "2021-03-04 25:00:00", "2021-03-04T12", "x", "", "20210304x", "2021-03-04\x00"})
+	c17Discovered(w, "roman", roman.Number(14), []string{"IIII I", "VX", "x!", "MMXXIVv", "14"})
+	c17Discovered(w, "sem", sem.Ver{Major: 9, Minor: 8, Patch: 7, PreRelease: "old", Build: "old"}, []string{"1.2", "v1.02.3", "", "1.2.3-", "1.2.3-01", "x"})
+	c17Discovered(w, "size", size.Size(4242), []string{"12 kiB", "-8", "1.5kB", `{"value":5`, "99999999999999999999999", "kB"})
+	c17Discovered(w, "uu", uu.ID{Higher: 5, Lower: 6}, []string{"x", "f81d4fae-7dec-11d0-a765-00a0c91e6bf", "urn:uuid:zz", ""})
+}
+
+// c17Discovered calls every mutating method the pointer type is found to have at run time - not only the ones the
+// histories above name: sql.Scanner, json/binary/text unmarshalers, xml attribute and element unmarshalers, gob,
+// flag.Value-style Set - with inputs that are refused. A method that returns an error leaves the receiver as it was.
+func c17Discovered[T any](w *rt.W, typ string, valid T, texts []string) {
+	p := new(T)
+	*p = valid
+	try := func(op string, input any, f func() error) {
+		var err error
+		panicked, msg := rt.Call(func() { err = f() })
+		w.Eval(1)
+		args := rt.Args("type", typ, "op", op, "input", fmt.Sprintf("%T %q", input, fmt.Sprint(input)))
+		switch {
+		case panicked:
+			w.Fail("panic-in-discovered-method-"+typ, "discovered", args, "panic: "+firstLine(msg), "an error or a value", op+" panicked")
+		case err != nil && !reflect.DeepEqual(*p, valid):
+			w.Fail("receiver-changed-on-error-"+typ, "discovered", args, fmt.Sprintf("%+v", *p), fmt.Sprintf("%+v", valid), op+" returned an error but changed the receiver")
+		}
+		*p = valid
+		w.ClassN("discovered-method-call:"+typ, 1)
+	}
+	var srcs []any
+	for _, t := range texts {
+		srcs = append(srcs, t, []byte(t))
+	}
+	srcs = append(srcs, hostileScanSources()...)
+	if m, ok := any(p).(sql.Scanner); ok {
+		for _, src := range srcs {
+			src := src
+			try("Scan", src, func() error { return m.Scan(src) })
+		}
+	}
+	for _, t := range texts {
+		t := t
+		if m, ok := any(p).(json.Unmarshaler); ok {
+			try("UnmarshalJSON", t, func() error { return m.UnmarshalJSON([]byte(t)) })
+			try("UnmarshalJSON", strconv.Quote(t), func() error { return m.UnmarshalJSON([]byte(strconv.Quote(t))) })
+		}
+		if m, ok := any(p).(encoding.BinaryUnmarshaler); ok {
+			try("UnmarshalBinary", t, func() error { return m.UnmarshalBinary([]byte(t)) })
+		}
+		if m, ok := any(p).(encoding.TextUnmarshaler); ok {
+			try("UnmarshalText", t, func() error { return m.UnmarshalText([]byte(t)) })
+		}
+		if m, ok := any(p).(xml.UnmarshalerAttr); ok {
+			try("UnmarshalXMLAttr", t, func() error { return m.UnmarshalXMLAttr(xml.Attr{Name: xml.Name{Local: "a"}, Value: t}) })
+		}
+		if m, ok := any(p).(gob.GobDecoder); ok {
+			try("GobDecode", t, func() error { return m.GobDecode([]byte(t)) })
+		}
+		if m, ok := any(p).(interface{ Set(string) error }); ok {
+			try("Set", t, func() error { return m.Set(t) })
+		}
+		// through the standard consumers, which pick whatever method the type offers
+		try("json.Unmarshal", t, func() error { return json.Unmarshal([]byte(strconv.Quote(t)), p) })
+		try("xml.Unmarshal", t, func() error {
+			var buf bytes.Buffer
+			_ = xml.EscapeText(&buf, []byte(t))
+			return xml.Unmarshal([]byte("<v>"+buf.String()+"</v>"), p)
+		})
+	}
 }
 
 // c17Configured: the exported Parser variables replaced by parsers of the program's own (lenient ones, ones that
